@@ -109,6 +109,8 @@ class Scenario:
         self._validated = set()  # (commit, blob) pairs already validated
         self.inconclusive = None
         self.branch_n = 0
+        self.variant = set()       # C14 metamorphic variants: extra_human_ckpt, repeat, split, readonly
+        self.vrng = random.Random("%s:%s:%s:variant" % (seed, prop, index))
         self._slow_commits = set()
         self._trace_size = -1
         self.ws_keys = set()       # keys of lines that some commit changed in whitespace only (finding D17 class)
@@ -275,6 +277,16 @@ class Scenario:
         return res
 
     # ------------------------------------------------------------------ protocol
+    def readonly_cmds(self, repo=None, f=None):
+        """Read-only git commands through the proxy (no clock tick: object ids stay comparable)."""
+        cmds = [["status"], ["status", "-s"], ["log", "-1", "--oneline"], ["diff"], ["diff", "--cached", "--stat"], ["show", "--stat"],
+                ["stash", "list"], ["branch", "-a"], ["rev-parse", "HEAD"], ["ls-files"]]
+        if f:
+            cmds.append(["blame", "--", f])
+        for c in self.vrng.sample(cmds, self.vrng.choice([1, 2, 3])):
+            self.w.git(*c, cwd=repo, tick=False)
+            self.stats["readonly_cmds"] += 1
+
     def do_edit(self, author=None, f=None, kinds=None, repo=None, ckpt=None):
         w = self.w
         f = f or self.rng.choice(self.files)
@@ -299,11 +311,30 @@ class Scenario:
                 self.write(f, lines, repo)
                 w.human_ckpt([f], cwd=repo)
             self.write(f, lines, repo)
+            if "extra_human_ckpt" in self.variant and self.vrng.random() < 0.6:
+                w.human_ckpt([f], cwd=repo)
+                self.stats["variant_extra_human_ckpt"] += 1
+                if "repeat" in self.variant and self.vrng.random() < 0.5:
+                    w.human_ckpt([f], cwd=repo)
         else:
+            before = list(lines)
             w.human_ckpt([f], cwd=repo)
+            if "repeat" in self.variant and self.vrng.random() < 0.4:
+                w.human_ckpt([f], cwd=repo)
+                self.stats["variant_repeat"] += 1
             d = self.edit_lines(lines, author, kinds, ck)
+            mid = self.split_point(before, lines, d) if "split" in self.variant else None
+            if mid is not None:
+                self.write(f, mid, repo)
+                w.ai_ckpt(author, [f], cwd=repo, messages=self.transcript(author))
+                self.stats["variant_split"] += 1
             self.write(f, lines, repo)
             w.ai_ckpt(author, [f], cwd=repo, messages=self.transcript(author))
+            if "repeat" in self.variant and self.vrng.random() < 0.4:
+                w.ai_ckpt(author, [f], cwd=repo, messages=self.transcript(author))
+                self.stats["variant_repeat"] += 1
+        if "readonly" in self.variant and self.vrng.random() < 0.5:
+            self.readonly_cmds(repo, f)
         self.log.append(["edit", f, author, d])
         self.ops.append("e:" + ("h" if author == "human" else "a") + ":" + d.split("@")[0])
         self.stats["edits"] += 1
@@ -313,6 +344,24 @@ class Scenario:
 
     def transcript(self, session):
         return None
+
+    def split_point(self, before, after, d):
+        """Intermediate content for splitting one agent edit into two checkpoints (insertions / replacements of >= 2 lines)."""
+        kind = d.split("@")[0]
+        if kind not in ("ins", "rep"):
+            return None
+        try:
+            if kind == "ins":
+                pos, k = d[4:].split("+"); pos, k = int(pos), int(k); a = b = pos
+            else:
+                rng_, k = d[4:].split("+"); a, b = rng_.split("-"); a, b, k = int(a), int(b), int(k)
+        except ValueError:
+            return None
+        if k < 2:
+            return None
+        j = self.vrng.randrange(1, k)
+        new = after[a:a + k]
+        return before[:a] + new[:j] + before[b:]
 
     def g(self, *args, repo=None, env=None, input=None):
         p = self.w.git(*args, cwd=repo, env=env, input=input)
